@@ -30,7 +30,7 @@ META["text"] = (
     "Tie: on every run the model is evaluated at binary64 inside Coq on the tree parameters exported from the compiled mjModel (body_parentid, body_pos, body_quat, mocap pose, jnt_type, jnt_pos, jnt_axis, qpos, qpos0, inertial/geom/site/camera offsets and sameframe codes) "
     "and compared with xpos, xquat, xmat, xanchor, xaxis, xipos, ximat, geom/site/cam frames, mj_jac columns (all dofs, all bodies), mj_integratePos and mj_differentiatePos of the working tree. "
     "Oracle on implementation output: rotation checks (1e-10) for body/inertial/geom/site/camera frames; mj_jac, mj_jacBody, mj_jacBodyCom, mj_jacSubtreeCom, mj_jacGeom, mj_jacSite, mj_jacSparse, mj_jacPointAxis (and camera points) against central finite differences over mj_integratePos perturbations; "
-    "object velocities (mj_objectVelocity for xbody, body, geom, site, camera, world and local orientation) and cvel against J qvel and, independently of every Jacobian, against the finite difference of the object's position and orientation along qvel - on objects attached to jointless links too; mj_jacDot against the finite difference of J along qvel; equality / limit constraint rows of efc_J (dense, and the sparse rows densified) against finite differences of efc_pos, with joint and tendon equalities (one and two objects) whose coupling polynomial takes every zero/non-zero combination of its five coefficients.")
+    "object velocities (mj_objectVelocity for xbody, body, geom, site, camera, world and local orientation) and cvel against J qvel and, independently of every Jacobian, against the finite difference of the object's position and orientation along qvel - on objects attached to jointless links too; mj_jacDot against the finite difference of J along qvel; equality / limit constraint rows of efc_J (dense, and the sparse rows densified) against finite differences of efc_pos, with joint and tendon equalities (one and two objects) whose coupling polynomial takes every zero/non-zero combination of its five coefficients; on a corpus of 'simple' bodies (the fast sparse paths mj_jacSparseSimple / mj_mergeChainSimple: leaves of every joint kind on static mounts with their own mass, mixed with deliberately non-simple leaves, connect / weld equalities between them) the same row oracle plus mj_jacDifPair (sparse and dense) against central differences of p2 - p1 and mj_jacSum (sparse and dense) against the weighted sum of mj_jac.")
 META["note"] = ("Trusted: Coq kernel + the standard-library real-number axioms listed in trusted_base; hand-written models Model/Kinematics.v and Model/Spatial.v; Lib/FloatFn.v (executable side); "
                 "correspondence harness (gcc, driver c07_kin.c, generator mjgen.h).")
 
@@ -469,6 +469,51 @@ def oracle_jac(D):
     return f
 
 
+def densify(J, chain, nv):
+    NV = len(chain)
+    out = [0.0] * (3 * nv)
+    for r in range(3):
+        for ci, k in enumerate(chain):
+            out[r * nv + k] += J[r * NV + ci]
+    return out
+
+
+def oracle_pairs(D):
+    """mj_jacDifPair (sparse = fast paths for simple bodies, and dense) and mj_jacSum on body pairs: sparse = dense, and
+    the translational difference Jacobian = central difference of (p2 - p1) for points moving with their bodies"""
+    f = []
+    nv = D["nv"][0]
+    rot = set()      # bodies with a rotational dof of their own
+    for b in range(D["nbody"][0]):
+        for j in range(D["body_jntadr"][b], D["body_jntadr"][b] + D["body_jntnum"][b]) if D["body_jntnum"][b] else []:
+            if D["jnt_type"][j] in (0, 1, 3):
+                rot.add(b)
+    hard = 0
+    for k in range(D["npair"][0]):
+        b1, b2 = D["pair_%d" % k]
+        simple = D["body_simple"][b1] and D["body_simple"][b2]
+        if simple and any(b in rot and D["body_rootid"][b] != b for b in (b1, b2)):
+            hard += 1
+        det = {"pair": [b1, b2], "body_simple": [D["body_simple"][b1], D["body_simple"][b2]], "body_rootid": [D["body_rootid"][b1], D["body_rootid"][b2]]}
+        chain = D.get("pair_chain_%d" % k, [])
+        fd = D["pair_fd_p_%d" % k]
+        dep, der = D["pair_de_p_%d" % k], D["pair_de_r_%d" % k]
+        spp, spr = densify(D["pair_sp_p_%d" % k], chain, nv), densify(D["pair_sp_r_%d" % k], chain, nv)
+        sc = 1 + max(abs(x) for x in fd + dep + spp)
+        if maxdiff(spp, fd) > FD_TOL * sc:
+            f.append(("mj_jacDifPair (sparse) jacdifp = d (p2 - p1) / d q (central difference)", det, fd, spp))
+        if maxdiff(dep, fd) > FD_TOL * sc:
+            f.append(("mj_jacDifPair (dense) jacdifp = d (p2 - p1) / d q (central difference)", det, fd, dep))
+        if maxdiff(spr, der) > 1e-12 * (1 + max(abs(x) for x in der + spr)):
+            f.append(("mj_jacDifPair jacdifr: sparse = dense", det, der, spr))
+        sch = D.get("sum_chain_%d" % k, [])
+        refp, refr = D["sum_ref_p_%d" % k], D["sum_ref_r_%d" % k]
+        for nm, jp, jr in (("sparse", densify(D["sum_sp_p_%d" % k], sch, nv), densify(D["sum_sp_r_%d" % k], sch, nv)), ("dense", D["sum_de_p_%d" % k], D["sum_de_r_%d" % k])):
+            if maxdiff(jp, refp) > 1e-12 * (1 + max(abs(x) for x in refp + jp)) or maxdiff(jr, refr) > 1e-12 * (1 + max(abs(x) for x in refr + jr)):
+                f.append(("mj_jacSum (%s) = weighted sum of mj_jac" % nm, det, refp + refr, jp + jr))
+    return f, hard
+
+
 def oracle_efc(D):
     """equality / limit rows of efc_J vs central differences of efc_pos"""
     f = []
@@ -554,17 +599,18 @@ def run(ctx):
     ereq = []
     ne = 8 if not big else 50
     nq_fixed = 6 if not big else 12       # fixed corpus of coupling polynomials (driver op Q)
+    sreq = [(rng.randrange(1, 10 ** 6), i) for i in range(10 if not big else 60)]     # simple bodies on static mounts (driver op S)
     efeat = base | FEAT["FREE"] | FEAT["BALL"] | FEAT["SLIDE"] | FEAT["EQUALITY"] | FEAT["LIMIT"] | FEAT["TENDON"]
     for i in range(ne):
         ereq.append((rng.randrange(1, 10 ** 6), efeat | (FEAT["MULTITREE"] if i % 2 else 0) | (FEAT["FIXED"] if i % 3 != 2 else 0), rng.choice([2, 3, 4, 5]), 1 + i))
-    inp = "".join("K %d %d %d %d\n" % r for r in kreq) + "".join("J %d %d %d %d\n" % r for r in jreq) + "".join("E %d %d %d %d\n" % r for r in ereq) + "".join("Q %d\n" % k for k in range(nq_fixed)) + "R\n"
+    inp = "".join("K %d %d %d %d\n" % r for r in kreq) + "".join("J %d %d %d %d\n" % r for r in jreq) + "".join("E %d %d %d %d\n" % r for r in ereq) + "".join("Q %d\n" % k for k in range(nq_fixed)) + "".join("S %d %d\n" % r for r in sreq) + "R\n"
     rc, out, err = ctx.run(exe, inp)
     blocks = parse_blocks(out)
-    if rc != 0 or len(blocks) != len(kreq) + len(jreq) + len(ereq) + nq_fixed + 1:
-        ctx.broken.append(("correspondence", "driver c07_kin failed", "rc=%s blocks=%d/%d %s" % (rc, len(blocks), len(kreq) + len(jreq) + len(ereq) + nq_fixed + 1, err[-800:])))
+    if rc != 0 or len(blocks) != len(kreq) + len(jreq) + len(ereq) + nq_fixed + len(sreq) + 1:
+        ctx.broken.append(("correspondence", "driver c07_kin failed", "rc=%s blocks=%d/%d %s" % (rc, len(blocks), len(kreq) + len(jreq) + len(ereq) + nq_fixed + len(sreq) + 1, err[-800:])))
         return
     kb, jb, eb = blocks[:len(kreq)], blocks[len(kreq):len(kreq) + len(jreq)], blocks[len(kreq) + len(jreq):-1]
-    ereq = ereq + [("Q", k) for k in range(nq_fixed)]
+    ereq = ereq + [("Q", k) for k in range(nq_fixed)] + [("S", r[0], r[1]) for r in sreq]
     rb = blocks[-1]
     seen = set()
 
@@ -639,12 +685,25 @@ def run(ctx):
                 eqdescr.append(req)
     for req, D in zip(ereq, eb):
         if "ERR" in D:
-            ctx.violation("impl_violation", {"request": ("E %d %d %d %d" % tuple(req)) if req[0] != "Q" else "Q %d" % req[1]}, expected="no mju_error", observed=D["ERR"], theorem="C07", signature={"law": "no error"})
+            ctx.violation("impl_violation", {"request": ("E %d %d %d %d" % tuple(req)) if req[0] not in ("Q", "S") else " ".join(str(x) for x in req)}, expected="no mju_error", observed=D["ERR"], theorem="C07", signature={"law": "no error"})
             continue
         fl, nrows = oracle_efc(D)
         counts["efc_rows"] += nrows
+        if req[0] == "S":
+            pf, hard = oracle_pairs(D)
+            fl = fl + pf
+            eqstrata["simple_pairs_with_rotational_leaf_on_a_mount"] = eqstrata.get("simple_pairs_with_rotational_leaf_on_a_mount", 0) + hard
+            eqstrata["body_pairs"] = eqstrata.get("body_pairs", 0) + D["npair"][0]
+            # connect / weld rows between two simple bodies one of which hangs on a mount
+            for e in range(len(D["eq_type"])):
+                if D["eq_type"][e] in (0, 1):
+                    b1, b2 = D["eq_obj1id"][e], D["eq_obj2id"][e]
+                    if D["body_simple"][b1] and D["body_simple"][b2] and any(D["body_rootid"][b] != b and D["body_dofnum"][b] for b in (b1, b2)):
+                        eqstrata["connect_weld_between_simple_bodies_on_a_mount"] = eqstrata.get("connect_weld_between_simple_bodies_on_a_mount", 0) + 1
         for (law, detail, exp, obs) in fl:
-            if req[0] == "Q":
+            if req[0] == "S":
+                report(law, (req[1], req[2], 0, 0), "S", detail, exp, obs, "C07 (oracle only)")
+            elif req[0] == "Q":
                 report(law, (req[1], 0, 0, 0), "Q", detail, exp, obs, "C07_eq_poly_row")
             else:
                 report(law, req, "E", detail, exp, obs, "C07_eq_poly_row")
@@ -683,7 +742,7 @@ def run(ctx):
                           eqlits, "chk", pre=EQ_PRE, shard=100)
     if efails:
         req = eqdescr[efails[0]]
-        ctx.violation("correspondence", {"request": ("Q %d" % req[1]) if req[0] == "Q" else "E %d %d %d %d" % tuple(req), "part": "joint/tendon equality row"},
+        ctx.violation("correspondence", {"request": " ".join(str(x) for x in req) if req[0] in ("Q", "S") else "E %d %d %d %d" % tuple(req), "part": "joint/tendon equality row"},
                       expected="model output (Model/EqPoly.v at binary64, tolerance 2^-30 scaled)", observed="efc_pos / efc_J row of the implementation differs", found_input=False,
                       theorem="correspondence c07 equality row", signature={"part": "joint/tendon equality row"},
                       note="implementation and Coq model disagree; see the oracle violations (if any) for a failing input")
@@ -712,7 +771,7 @@ def run(ctx):
     ctx.cov["support"]["oracle_requests"] = {"J": len(jreq), "E": len(ereq)}
     ctx.cov["support"]["tree_strata"] = {"tie": strata["K"], "oracle": strata["J"]}
     ctx.cov["support"]["equality_polynomial_strata"] = eqstrata
-    for key in ["joint_pair_degree%d_term" % k for k in range(1, 5)] + ["tendon_pair_degree4_term", "blocks_with_sparse_rows_checked"]:
+    for key in ["joint_pair_degree%d_term" % k for k in range(1, 5)] + ["tendon_pair_degree4_term", "blocks_with_sparse_rows_checked", "simple_pairs_with_rotational_leaf_on_a_mount", "connect_weld_between_simple_bodies_on_a_mount"]:
         if eqstrata.get(key, 0) == 0:
             ctx.broken.append(("correspondence", "constraint-row oracle: stratum '%s' was not reached" % key, str(eqstrata)))
     for grp, name in (("K", "tie"), ("J", "Jacobian / velocity oracle")):
